@@ -5,7 +5,8 @@ from harness import scen, xmlabs
 from harness.props import xmicommon as xc
 
 ID = "C04"
-COQ_TARGETS = ["Lex.vo", "LexProofs.vo", "XmiDoc.vo", "Xmi.vo", "XmiProofs.vo", "CorrC04.vo", "XmiExample.vo", "Props/C04.vo"]
+COQ_TARGETS = ["Lex.vo", "LexProofs.vo", "XmiDoc.vo", "Xmi.vo", "XmiProofs.vo", "ReachProofs.vo", "ReachSpec.vo", "XmiWf.vo", "XmiDocOk.vo",
+               "CorrC04.vo", "XmiExample.vo", "Props/C04.vo"]
 PROPS_FILE = "Props/C04.v"
 CORR_IMPORTS = "Base Heap Schema Canon XmiDoc Xmi CorrC04"
 OPEN_SCOPES = ["Z_scope"]
